@@ -32,6 +32,7 @@ OBJECTIVES = [
     dict(N=1, r=2.0, box="B0", env="const"),
     dict(N=4, r=2.0, box="B1", env="abs13"),
     dict(N=5, r=3.0, box="B0", env="sin"),
+    dict(N=2, r=2.0, box="B1", env="quad", density=4),
 ]
 
 
@@ -175,6 +176,9 @@ LONG = [
     dict(N=2, r=2.5, box="B0", env="sym"),
     dict(N=2, r=3.0, box="B1", env="cos3"),
     dict(N=1, r=2.0, box="B0", env="quad"),
+    dict(N=2, r=3.0, env="bench:Rastrigin:2", T=320),
+    dict(N=1, r=2.5, env="bench:Hill:3", T=160),
+    dict(N=2, r=2.5, env="bench:Grishagin:5", T=160),
 ]
 
 
@@ -281,7 +285,7 @@ def run(ctx):
     res = Result()
     th = ctx.thorough
     n = 11 if th else 8
-    objs = OBJECTIVES if th else OBJECTIVES[:5] + ctx.pick(OBJECTIVES[5:], 2)
+    objs = OBJECTIVES if th else OBJECTIVES[:5] + ctx.pick(OBJECTIVES[5:10], 2) + OBJECTIVES[10:]
     tasks = []
     for cfg in objs:
         nn = n if cfg["N"] <= 2 else n - 1
@@ -296,7 +300,9 @@ def run(ctx):
         comps += st["comps"]
         res.merge_violations(viol)
     T = 200 if th else 100
-    ltasks = [dict(cfg=cfg, T=T, ks=list(range(a, min(T, a + 10)))) for cfg in LONG for a in range(1, T, 10)]
+    ltasks = [dict(cfg={k: v for k, v in cfg.items() if k != "T"}, T=cfg.get("T", T),
+                   ks=list(range(a, min(cfg.get("T", T), a + 10))))
+              for cfg in LONG for a in range(1, cfg.get("T", T), 10)]
     nlong = 0
     for t, (k, viol) in zip(ltasks, pmap(long_task, ltasks)):
         nlong += k
